@@ -15,20 +15,23 @@ abbrev reach (a : ACfg) (evs : List Ev) : St := runEvs a {} evs
 /-- **Nothing of the second stage is left.** When the close of the soup session has run to its end (the close callback
     `_on_soup_close` has returned), the application queue is stopped, its dispatcher and its receive helper have ended, and no
     application-level task is suspended any more — not in `queue.get()`, not awaiting the helper, not waiting for the close
-    event: every caller has been released. -/
+    event: every caller has been released — and none is inside `soup_session.close()` (a second dispatcher that carried out the
+    close itself, for a `close()` awaited from the message callback, has returned from it and ended). -/
 theorem C06App_tasks_ended (a : ACfg) (evs : List Ev) (h : (reach a evs).inner.cstage = .finished)
     (hb : (reach a evs).built = true) :
     (reach a evs).q2Closed = true ∧ alive2 ((reach a evs).astatus .D2) = false ∧ (reach a evs).disp2Set = false ∧
     alive2 ((reach a evs).astatus .V2) = false ∧
-    ∀ t, (reach a evs).astatus t ≠ .waitQ ∧ (reach a evs).astatus t ≠ .waitV ∧ (reach a evs).astatus t ≠ .waitE := by
+    ∀ t, (reach a evs).astatus t ≠ .waitQ ∧ (reach a evs).astatus t ≠ .waitV ∧ (reach a evs).astatus t ≠ .waitE ∧
+      (reach a evs).astatus t ≠ .inSoup := by
   have i := runEvs_Inv a evs
   have hc : (reach a evs).cpc = .finished := i.yy.s3 h
   have hl : lateStage (reach a evs).cpc = true := by rw [hc]; rfl
-  obtain ⟨hD, hds⟩ := i.ss.dn hb (Or.inr hl)
+  have hD := i.ss.dnf rfl hb hc
+  have hds := (i.ss.dn hb (Or.inr hl)).2
   have hV := i.ss.vn hb hl
   refine ⟨i.bb.q hb (by rw [hc]; simp), hD, hds, hV, ?_⟩
   intro t
-  refine ⟨?_, ?_, ?_⟩
+  refine ⟨?_, ?_, ?_, ?_⟩
   · intro ht
     rcases i.ss.wq t ht with rfl | rfl
     · rw [ht] at hD; simp [alive2] at hD
@@ -38,6 +41,9 @@ theorem C06App_tasks_ended (a : ACfg) (evs : List Ev) (h : (reach a evs).inner.c
     rw [hV] at this; contradiction
   · intro ht
     exact i.bb.ev2 hc (i.ss.we t ht)
+  · intro ht
+    obtain ⟨rfl, _⟩ := i.ss.ip t ht
+    rw [ht] at hD; simp [alive2] at hD
 
 /-- **Nothing left running.** When the close has completed and no application-level task can take a step any more
     (quiescence), every application-level task — second dispatcher, receive helper, every caller — has finished. -/
@@ -47,7 +53,7 @@ theorem C06App_quiescent_clean (a : ACfg) (evs : List Ev) (h : (reach a evs).inn
   obtain ⟨_, _, _, _, hw⟩ := C06App_tasks_ended a evs h hb
   intro t
   have h1 := hq t
-  obtain ⟨w1, w2, w3⟩ := hw t
+  obtain ⟨w1, w2, w3, w4⟩ := hw t
   cases hs : (reach a evs).astatus t <;> simp_all [runnable2, alive2]
 
 /-- **The second dispatcher and the receive helper cannot take a step any more**: after the close has completed `run D2` and
@@ -55,11 +61,12 @@ theorem C06App_quiescent_clean (a : ACfg) (evs : List Ev) (h : (reach a evs).inn
 theorem C06App_no_callback_after_close (a : ACfg) (evs : List Ev) (h : (reach a evs).inner.cstage = .finished)
     (hb : (reach a evs).built = true) :
     step a (reach a evs) (.run .D2) = reach a evs ∧ step a (reach a evs) (.run .V2) = reach a evs := by
-  obtain ⟨_, hD, _, hV, _⟩ := C06App_tasks_ended a evs h hb
+  obtain ⟨_, hD, _, hV, hw⟩ := C06App_tasks_ended a evs h hb
+  have hni := (hw .D2).2.2.2
   have nr : ∀ t, alive2 ((reach a evs).astatus t) = false → runnable2 (reach a evs) t = false := by
     intro t ht
     cases hs : (reach a evs).astatus t <;> simp_all [runnable2, alive2]
-  exact ⟨by simp [step, nr _ hD], by simp [step, nr _ hV]⟩
+  exact ⟨by simp [step, nr _ hD, hni], by simp [step, nr _ hV]⟩
 
 /-- **Completion is final**: once the close of the soup session has completed, no event of the product machine changes that
     (so the statements above hold for the rest of the session's life). -/
